@@ -43,7 +43,7 @@ def cases(tier):
     def one(draw):
         prot = draw(st.sampled_from(["xml", "soap11", "soap12", "json", "yaml", "msgpack"]))
         U = draw(spec.universes(max_classes=4, xml=prot in ("xml", "soap11", "soap12"),
-                                inheritance=True))
+                                inheritance=True, same_names=False))
         cs = U["classes"]
         # force a tree: make sure at least one class extends another
         if len(cs) < 2:
